@@ -97,7 +97,10 @@ def synthetic_uri_prefixes(n):
     out = []
     for i in range(n):
         host, level = i % 6, i // 6
-        out.append(f"s://h{host}/" + "a" * level)
+        tok = f"s://h{host}/" + "a" * level
+        if i % 7 == 3:
+            tok = f"s://H{host}/" + "aA" * (level // 2) + "a" * (level % 2)     # mixed case: folds onto a sibling
+        out.append(tok)
     return out
 
 
